@@ -666,7 +666,7 @@ func checkOperationTable(c *Ctx, g *grammarInfo, tm *tokenMap, gramSet map[int64
 			switch {
 			case want[alt] == "" && got[alt] == "":
 				c.obN("C02.R2", key, w.Pos(cs.pos), true, "ill-typed: no value is returned for "+alt+" operands", false)
-			case want[alt] == got[alt]:
+			case want[alt] == got[alt], alt == "Boolean" && boolTT(want[alt]) != "" && boolTT(want[alt]) == boolTT(got[alt]):
 				c.ob("C02.R2", key, w.Pos(cs.pos), true, "case "+cs.name+" returns "+got[alt])
 			case got[alt] == "":
 				c.ob("C02.R2", key, w.Pos(cs.pos), false, "case "+cs.name+" returns no value for "+alt+" operands; Yarn's table prescribes "+want[alt])
@@ -1041,7 +1041,24 @@ func checkArgumentOrder(c *Ctx, rule string) {
 					return true
 				})
 				if !appended {
-					okEval, why = false, "the evaluated value is not appended to the argument list in the same iteration"
+					// or stored at the loop index into a slice made with exactly one slot per argument
+					walkNoLit(loop.Body, func(n ast.Node) bool {
+						as, ok := n.(*ast.AssignStmt)
+						if !ok || len(as.Lhs) != 1 || len(as.Rhs) != 1 || as.Tok != token.ASSIGN {
+							return true
+						}
+						ix, ok := unparen(as.Lhs[0]).(*ast.IndexExpr)
+						if !ok || idx == "" || x.str(ix.Index) != idx || x.str(as.Rhs[0]) != x.str(ev)+"#0" {
+							return true
+						}
+						if sx := x.str(ix.X); sx == "make(expr,len("+base+"))" || strings.HasPrefix(sx, "make(") && strings.HasSuffix(sx, ",len("+base+"))") {
+							appended = true
+						}
+						return true
+					})
+				}
+				if !appended {
+					okEval, why = false, "the evaluated value is neither appended to the argument list nor stored at the loop index into a list made with one slot per argument, in the same iteration"
 				}
 			}
 		}
@@ -1133,4 +1150,19 @@ func checkHandlers(c *Ctx, rule string) {
 			c.ob(rule, key, "internal/parser/YarnSpinnerParser.g4", declared[mname], map[bool]string{true: "handled by parserListener." + mname, false: "no parserListener." + mname + ": an expression written with this alternative never reaches its callback (the statement is dropped or evaluated with a missing operand)"}[declared[mname]])
 		}
 	}
+}
+
+// boolTT: the truth table (rows LR = 00,01,10,11) of a described result over two boolean operands, "" if it is not one.
+// L != R and xor are the same function of two booleans; so are L == R and its table.
+func boolTT(desc string) string {
+	switch desc {
+	case "Boolean(L!=R)", "Boolean(R!=L)", "Boolean(tt:0110)":
+		return "0110"
+	case "Boolean(L==R)", "Boolean(R==L)", "Boolean(tt:1001)":
+		return "1001"
+	}
+	if strings.HasPrefix(desc, "Boolean(tt:") && strings.HasSuffix(desc, ")") {
+		return strings.TrimSuffix(strings.TrimPrefix(desc, "Boolean(tt:"), ")")
+	}
+	return ""
 }
